@@ -405,6 +405,10 @@ func Gen(t *rapid.T, o Options) *Layout {
 			if rapid.IntRange(0, 2).Draw(t, "prov") != 0 {
 				continue
 			}
+			if hasS(i1Fields, f.name) && e.entity && hasS(i1Impl, e.name) && !o.Allow["provides-on-iface-field"] {
+				m.feat["excluded:provides-on-iface-field"] = true
+				continue
+			}
 			if len(f.owners) > 1 && !o.Allow["provides-on-shareable"] {
 				m.feat["excluded:provides-on-shareable"] = true
 				continue
